@@ -142,6 +142,8 @@ class Case(object):
         bad = np.zeros(g.shape, dtype=bool)
         # non-finite expected: must match exactly
         bad |= (~fin) & ~((g == w) | (np.isnan(g) & np.isnan(w)))
+        # finite expected but non-finite obtained: always a mismatch
+        bad |= fin & ~np.isfinite(g)
         with np.errstate(all='ignore'):
             scale = np.maximum(1.0, np.maximum(np.abs(g), np.abs(w)))
             diff = np.abs(g - w)
